@@ -153,20 +153,27 @@ def model_configs(thorough: bool):
     return out
 
 
-def tree_configs(nmax=2):
-    """Second family (thorough): every rooted ordered forest with <= nmax bodies x the full joint menu per body
-    (mc.alphabet), integrator and joint damping rotated over the enumeration index."""
+def _tree(par, js, integ, damping):
+    return dict(kind="tree", parents=tuple(par), joints=tuple(js), integrator=integ, damping=damping,
+                acts="none", sleep=False, solver="Newton", cone="pyramidal", flags="")
+
+
+def tree_configs(thorough: bool, nmax=2):
+    """Second family: every rooted ordered forest with <= nmax bodies x the full joint menu per body (mc.alphabet)
+    x {4 integrators with joint damping, Euler without}.  quick: the one chain on which the unchanged tree shows the
+    integrator-stage findings (ball -> slide+hinge, Euler and implicit, damped)."""
+    import itertools
+    if not thorough:
+        return [_tree((-1, 0), ("ball", "slidehinge"), "Euler", True), _tree((-1, 0), ("ball", "slidehinge"), "implicit", True)]
     out = []
-    k = 0
     for par in A.all_forests(nmax):
         doms = [A.joint_menu(p == -1) for p in par]
-        import itertools
         for js in itertools.product(*doms):
             if all(j == "none" for j in js):
                 continue
-            out.append(dict(kind="tree", parents=par, joints=js, integrator=INTEGRATORS[k % 4], damping=bool((k // 4) % 2),
-                            acts="none", sleep=False, solver="Newton", cone="pyramidal", flags=""))
-            k += 1
+            for integ in INTEGRATORS:
+                out.append(_tree(par, js, integ, True))
+            out.append(_tree(par, js, "Euler", False))
     return out
 
 
